@@ -181,10 +181,52 @@ theorem every_call_confirmed (cfg : Cfg) (cur : Option Int) (rs : List Round) :
       | some h => exact ⟨h, rfl, by simpa [hh] using this⟩
     · exact ih _ o ho
 
+/-- confirmation is downward closed in the block: everything below a confirmed block is confirmed -/
+theorem confirmed_mono (cfg : Cfg) (h b b' : Int) (hb : b' ≤ b) (hc : confirmed cfg h b) : confirmed cfg h b' := by
+  unfold confirmed at hc ⊢
+  cases hk : cfg.kind <;> simp [hk] at hc ⊢ <;> omega
+
+/-- **every block of a handled range is confirmed**, not only its last one. For an interval `k ≤ 0` (EVM/Substrate;
+    rejected by the chain configs, property C20) the range `[c, last c]` is empty or inverted and this says nothing —
+    `range_nonempty` is the companion for `k ≥ 1`. -/
+theorem range_confirmed (cfg : Cfg) (h c : Int) (hr : ready cfg h c = true) :
+    ∀ b, c ≤ b → b ≤ cfg.last c → confirmed cfg h b :=
+  fun b _ hb => confirmed_mono cfg h _ b hb (ready_confirmed cfg h c hr)
+
+theorem range_nonempty (cfg : Cfg) (hk : 0 < cfg.stride) (c : Int) : c ≤ cfg.last c := by
+  unfold Cfg.last; omega
+
+/-- loop level: every block of every range handed to a handler is confirmed w.r.t. the head read in that round -/
+theorem every_block_confirmed (cfg : Cfg) (cur : Option Int) (rs : List Round) :
+    ∀ o ∈ run cfg cur rs, ∀ c ∈ o.calls, ∀ b, b ≤ c.e → ∃ h, o.head = some h ∧ confirmed cfg h b := by
+  intro o ho c hc b hb
+  obtain ⟨h, hh, hconf⟩ := every_call_confirmed cfg cur rs o ho c hc
+  exact ⟨h, hh, confirmed_mono cfg h _ b hb hconf⟩
+
+/-- **sequences on shared objects.** Whatever retries (by height, by transaction) and scan iterations are handled, in
+    whatever order, by the objects that share the confirmations value, every one of them is judged with the ORIGINAL
+    value: in the model no step writes the shared state (a frame property, immediate by induction — the substance is
+    that the real handlers behave like this machine, which the `seq` and `retrypair` ops check). -/
+theorem seqRun_original_conf (kind : Kind) (k conf : Int) (xs : List SeqStep) :
+    seqRun kind k ⟨conf⟩ xs = xs.map (seqGuard kind k conf) := by
+  induction xs with
+  | nil => rfl
+  | cons x xs ih =>
+    have hst : (seqStep kind k ⟨conf⟩ x).1 = ⟨conf⟩ := by cases x <;> rfl
+    have hout : (seqStep kind k ⟨conf⟩ x).2 = seqGuard kind k conf x := by cases x <;> rfl
+    simp only [seqRun, List.map_cons, hst, hout, ih]
+
 /-- retry by tx hash (EVM) and retry by height (EVM, BTC): the guard implies `conf` confirmations
     (in fact `conf + 1`: `retry_ready_iff`) -/
 theorem retry_confirmed (latest h conf : Int) (hr : retryReady latest h conf = true) : conf ≤ latest - h := by
   unfold retryReady at hr; simp at hr; omega
+
+/-- … hence every accepted retry of a sequence is confirmed w.r.t. the configured confirmations -/
+theorem seqRun_retry_confirmed (kind : Kind) (k conf : Int) (xs : List SeqStep) (i : Nat) (l h : Int)
+    (hx : xs[i]? = some (.retry l h)) (hacc : (seqRun kind k ⟨conf⟩ xs)[i]? = some true) : conf ≤ l - h := by
+  rw [seqRun_original_conf] at hacc
+  simp only [List.getElem?_map, hx, Option.map_some, Option.some.injEq] at hacc
+  exact retry_confirmed l h conf hacc
 
 theorem retry_ready_iff (latest h conf : Int) : retryReady latest h conf = true ↔ conf + 1 ≤ latest - h := by
   unfold retryReady; simp; omega
